@@ -368,6 +368,28 @@ func (g *pxGen) file(name string, incs []*pxInclude) *pxFile {
 	r := g.r
 	g.used = map[string]bool{}
 	f := &pxFile{Name: name, Includes: incs}
+	// recorded finding include-typedef-hop-circular: a typedef of this file named like a type declared in
+	// a reachable included file can be rejected as "Circular typedef" (hops of the included file's typedefs
+	// are resolved in the including file). The class is excluded: such names are not reused here.
+	var mark func(in []*pxInclude)
+	mark = func(in []*pxInclude) {
+		for _, inc := range in {
+			if inc.File == nil {
+				continue
+			}
+			for _, e := range inc.File.Enums {
+				g.used[strings.ToLower(e.Name)] = true
+			}
+			for _, x := range inc.File.Structs {
+				g.used[strings.ToLower(x.Name)] = true
+			}
+			for _, t := range inc.File.Typedefs {
+				g.used[strings.ToLower(t.Name)] = true
+			}
+			mark(inc.File.Includes)
+		}
+	}
+	mark(incs)
 	env := &pxEnv{kindOf: map[string]string{}, valsOf: map[string][]string{}}
 	for _, inc := range incs {
 		in := pxIncludeName(inc.Path)
@@ -542,34 +564,105 @@ func (g *pxGen) file(name string, incs []*pxInclude) *pxFile {
 	return f
 }
 
-// program generates a main file with 0..2 includes (one of them possibly including another).
+// pxRelPath: the include path to write in a file of directory `from` for the file `to`
+// (both relative to the root, directories end in "/" or are ""): "../" for every level up.
+func pxRelPath(from, to string) string {
+	fd := strings.Split(strings.TrimSuffix(from, "/"), "/")
+	if from == "" {
+		fd = nil
+	}
+	td := strings.Split(to, "/")
+	i := 0
+	for i < len(fd) && i < len(td)-1 && fd[i] == td[i] {
+		i++
+	}
+	return strings.Repeat("../", len(fd)-i) + strings.Join(td[i:], "/")
+}
+
+func pxDirOf(rel string) string {
+	if j := strings.LastIndex(rel, "/"); j >= 0 {
+		return rel[:j+1]
+	}
+	return ""
+}
+
+var pxDirs = []string{"", "", "a/", "b/", "a/sub/", "lib/", "lib/v1/"}
+var pxBases = [][2]string{{"common", ".frugal"}, {"base", ".frugal"}, {"types", ".thrift"}, {"x", ".frugal"}, {"Shared", ".thrift"}, {"v2", ".frugal"}, {"common", ".thrift"}}
+
+// program generates an include GRAPH over a directory tree: files in subdirectories, relative
+// include paths ("../b/common.frugal", "sub/x.frugal", redundant "./" and "d/../"), the same base
+// name in different directories (different contents), diamonds onto one file, chains >= 3 deep.
+// A file may also reach a DIFFERENT file with its own base name (a/common -> ../b/common; fixed f162058).
+// File i may include files j > i (a DAG). Excluded: two includes with the same base name in one file
+// (rejected by design: "Duplicate include").
 func (g *pxGen) program() *pxFile {
 	r := g.r
-	var incs []*pxInclude
-	if r.Chance(30) {
-		n := 1 + r.Intn(2)
-		names := [][2]string{{"base", ".frugal"}, {"common_types", ".thrift"}, {"v2", ".frugal"}, {"Shared", ".thrift"}, {"x", ".frugal"}}
-		off := r.Intn(len(names))
-		var nested *pxInclude
-		if r.Chance(30) {
-			nested = &pxInclude{Path: "deep.frugal", Anns: g.anns(10)}
-			nested.File = g.file("deep.frugal", nil)
-		}
-		for i := 0; i < n; i++ {
-			nm := names[(off+i)%len(names)]
-			path := nm[0] + nm[1]
-			if r.Chance(25) {
-				path = "sub/" + path
-			}
-			inc := &pxInclude{Path: path, Anns: g.anns(15)}
-			var sub []*pxInclude
-			if nested != nil && i == 0 && !strings.HasPrefix(path, "sub/") {
-				sub = []*pxInclude{nested}
-			}
-			inc.File = g.file(path, sub)
-			incs = append(incs, inc)
-		}
+	mains := []string{"main.frugal", "m_1.thrift", "Api.frugal"}
+	mainRel := mains[r.Intn(3)]
+	if r.Chance(15) {
+		mainRel = []string{"a/", "lib/v1/"}[r.Intn(2)] + mainRel
 	}
-	main := []string{"main.frugal", "m_1.thrift", "Api.frugal"}[r.Intn(3)]
-	return g.file(main, incs)
+	if !r.Chance(40) {
+		return g.file(mainRel, nil)
+	}
+	n := 1 + r.Intn(3)
+	if r.Chance(35) {
+		n = 3 + r.Intn(4)
+	}
+	// distinct root-relative paths; base names repeat across directories on purpose
+	rels := []string{mainRel}
+	seen := map[string]bool{mainRel: true}
+	for len(rels) < n+1 {
+		b := pxBases[r.Intn(len(pxBases))]
+		if r.Chance(35) {
+			b = pxBases[0]
+		}
+		rel := pxDirs[r.Intn(len(pxDirs))] + b[0] + b[1]
+		if seen[rel] {
+			continue
+		}
+		seen[rel] = true
+		rels = append(rels, rel)
+	}
+	// reach[i]: base names of the files reachable from file i (including itself)
+	files := make([]*pxFile, len(rels))
+	reach := make([]map[string]bool, len(rels))
+	for i := len(rels) - 1; i >= 0; i-- {
+		var incs []*pxInclude
+		names := map[string]bool{}
+		below := map[string]bool{}
+		self := pxIncludeName(rels[i])
+		for j := i + 1; j < len(rels); j++ {
+			p := 45
+			if j == i+1 {
+				p = 75 // chains
+			}
+			if !r.Chance(p) {
+				continue
+			}
+			nm := pxIncludeName(rels[j])
+			if names[nm] {
+				continue
+			}
+			names[nm] = true
+			for k := range reach[j] {
+				below[k] = true
+			}
+			path := pxRelPath(pxDirOf(rels[i]), rels[j])
+			switch r.Intn(12) {
+			case 0:
+				path = "./" + path
+			case 1:
+				if d := pxDirOf(path); d != "" && !strings.HasPrefix(d, "..") {
+					comps := strings.Split(strings.TrimSuffix(d, "/"), "/")
+					path = d + "../" + comps[len(comps)-1] + "/" + path[len(d):] // a/sub/x -> a/sub/../sub/x
+				}
+			}
+			incs = append(incs, &pxInclude{Path: path, Anns: g.anns(15), File: files[j]})
+		}
+		files[i] = g.file(rels[i], incs)
+		below[self] = true
+		reach[i] = below
+	}
+	return files[0]
 }
